@@ -317,6 +317,28 @@ def _packed_in_layout_order(prog: Program, col: Collector, refs: Refs):
                       f"`{M}` is filled while iterating `{norm(it)[:50]}`: the declared order of the inputs follows that iteration, not the layout of `{xp}` (which is wrapped "
                       "unchanged), so a mapping written in another order than ascending dims attaches each name to another dim's data", f.loc(loops[0]))
     if not done:
+        # built in one go from two sequences: name and size of a dim must come from the SAME position, so the two sides of the zip must
+        # not be filtered separately (a named dim of size 1 would shift every later size onto the previous name)
+        for r in rets:
+            M = r.value.args[1].id
+            for st in walk_no_nested(f.node):
+                if isinstance(st, ast.Assign) and len(st.targets) == 1 and norm(st.targets[0]) == M:
+                    zips = [c for c in ast.walk(st.value) if isinstance(c, ast.Call) and norm(c.func) == "zip" and len(c.args) == 2]
+                    for z in zips:
+                        def filt(e):
+                            if isinstance(e, ast.Name):
+                                ds = [d.value for d in walk_no_nested(f.node) if isinstance(d, ast.Assign) and len(d.targets) == 1 and norm(d.targets[0]) == e.id]
+                                e = ds[0] if len(ds) == 1 else e
+                            return [norm(c_) for c_ in e.generators[0].ifs] if isinstance(e, (ast.GeneratorExp, ast.ListComp)) else None
+                        fa, fb = filt(z.args[0]), filt(z.args[1])
+                        done = True
+                        if fa is not None and fb is not None and (fa or fb) and fa != fb:
+                            col.violation(f"{f.fq}::{norm(z)[:60]}", f"the names are filtered by `{' and '.join(fa) or 'nothing'}` and the sizes by `{' and '.join(fb) or 'nothing'}` BEFORE they are "
+                                          "paired: a dim that passes one filter and not the other (a named dim of size 1, an unnamed dim of size > 1) shifts every later size onto "
+                                          "another dim's name", f.loc(z))
+                        else:
+                            col.unresolved(f"{f.fq}::{norm(z)[:60]}", "inputs built from a zip; pairing not judged", f.loc(z))
+    if not done:
         col.unresolved(f"{f.fq}::packing loop", "no loop that fills the inputs of the returned Tensor found", f.loc())
 
 
@@ -346,6 +368,10 @@ def _event_dims_stay(prog: Program, col: Collector, refs: Refs):
                             r_ = r_.args[0]
                         if isinstance(r_, ast.Call) and isinstance(r_.func, ast.Name) and r_.func.id == "range" and len(r_.args) in (1, 2):
                             tail, head = r_, x.left
+                        elif isinstance(r_, (ast.GeneratorExp, ast.ListComp)) and len(r_.generators) == 1 and isinstance(r_.generators[0].iter, ast.Call) \
+                                and norm(r_.generators[0].iter.func) == "range" and not any(isinstance(y, ast.Attribute) and y.attr == "index" for y in ast.walk(r_.elt)) \
+                                and any(isinstance(y, ast.Attribute) and y.attr == "shape" for y in ast.walk(r_.generators[0].iter)):
+                            tail, head = r_, x.left
                     if isinstance(x, ast.Name) and x.id in defs and x.id not in seen:
                         seen.add(x.id)
                         cands.extend(defs[x.id])
@@ -366,10 +392,27 @@ def _event_dims_stay(prog: Program, col: Collector, refs: Refs):
                                 a0_ = y.args[0]
                                 whole = t_.endswith(".data.shape") or (isinstance(a0_, ast.Attribute) and a0_.attr == "shape" and _owner_of_data(a0_.value, defs) is not None)
                                 env[norm(y)] = ne if t_.endswith("output.shape") else nb + ne if whole else nb
-                        lo = _eval_int(tail.args[0], env) if len(tail.args) == 2 else 0
-                        hi = _eval_int(tail.args[-1], env)
-                        if list(range(lo, hi)) != list(range(nb, nb + ne)) and bad is None:
-                            bad = (nb, ne, list(range(lo, hi)))
+                        if isinstance(tail, ast.Call):
+                            lo = _eval_int(tail.args[0], env) if len(tail.args) == 2 else 0
+                            hi = _eval_int(tail.args[-1], env)
+                            got = list(range(lo, hi))
+                        else:  # a comprehension over a range: evaluate the element for every index
+                            rg = tail.generators[0].iter
+                            for y in ast.walk(rg):
+                                if isinstance(y, ast.Call) and isinstance(y.func, ast.Name) and y.func.id == "len" and y.args:
+                                    t_ = norm(y.args[0])
+                                    a0_ = y.args[0]
+                                    whole = t_.endswith(".data.shape") or (isinstance(a0_, ast.Attribute) and a0_.attr == "shape" and _owner_of_data(a0_.value, defs) is not None)
+                                    env[norm(y)] = ne if t_.endswith("output.shape") else nb + ne if whole else nb
+                            lo = _eval_int(rg.args[0], env) if len(rg.args) >= 2 else 0
+                            hi = _eval_int(rg.args[1] if len(rg.args) >= 2 else rg.args[0], env)
+                            iv = tail.generators[0].target.id
+                            got = []
+                            for i_ in range(lo, hi):
+                                env[iv] = i_
+                                got.append(_eval_int(tail.elt, env) % max(1, nb + ne))  # a negative position counts from the right
+                        if got != list(range(nb, nb + ne)) and bad is None:
+                            bad = (nb, ne, got)
             except _NoEval as ex:
                 col.unresolved(construct, f"not evaluated ({ex})", f.loc(c))
                 continue
